@@ -499,7 +499,23 @@ int64_t cmi_pool_acquire_inner(struct cmb_resourcepool *rpp,
 
         /* Wait at the front door until some more becomes available  */
         cmb_assert_debug(rem_claim > 0u);
-        const int64_t sig = cmb_resourceguard_wait(&(rpp->guard), is_available, NULL);
+        int64_t sig;
+        bool robbed;
+        do {
+            sig = cmb_resourceguard_wait(&(rpp->guard), is_available, NULL);
+
+            /*
+             * Woken to take some more, but a preempting process took our
+             * holding while we waited, and its notice has not reached us yet?
+             * Then this is not ours to take. Pass it on and wait for the notice.
+             */
+            robbed = (sig == CMB_PROCESS_SUCCESS)
+                     && ((cmb_resourcepool_held_by_process(rpp, caller) + rem_claim)
+                         < (initially_held + req_amount));
+            if (robbed) {
+                cmb_resourceguard_signal(&(rpp->guard));
+            }
+        } while (robbed);
         if ((sig == CMB_PROCESS_PREEMPTED)
             && (cmb_resourcepool_held_by_process(rpp, caller) == 0u)) {
             /* Got thrown out of this pool instead, nothing left to unwind. */
